@@ -16,7 +16,12 @@ arrays of its first argument, ...) are not forbidden by the documentation, so
 the interpreter tracks provenance: before an *in-place element write* into a
 slot, every other slot derived from / feeding into that slot (without a
 ``copy()`` in between) is rebuilt from its model.  ``copy()`` results get a
-fresh provenance and are therefore never excused.  The same holds for the
+fresh provenance and are therefore never excused.  A *whole-category assignment*
+(``sub.res_id = values`` / ``sub.set_annotation(name, values)``) is not an element
+write: it is the annotation edit of that one container ("Set an annotation array
+... the new value of the annotation category"), in the reference model it replaces
+the values of the atoms of ``sub`` only, so no other slot is rebuilt before it and
+the parent / sibling models are compared as they are.  The view policy also holds for the
 ``Atom`` returned by ``array[i]`` / ``stack[m, i]`` / iteration: whether it is a
 view of the container is not documented (in the list-of-atoms model ``lst[i]``
 *is* the stored atom), so it is never edited in place; the strict form is
@@ -1163,9 +1168,12 @@ class Interp:
             return self.skip("empty")
         mc, real = s.model, s.real
         name = EDITABLE[cat % len(EDITABLE)]
-        if name in mc.cats:
-            # replacing an existing category may legally be done by writing into the stored array
-            self.before_inplace_write(slot % NSLOTS)
+        if name in mc.cats and any(
+            j != slot % NSLOTS and t is not None and t.prov & s.prov for j, t in enumerate(self.slots)
+        ):
+            # whole-category assignment on a container that may share its annotation arrays with another
+            # slot (slice view, stack[i], stack([...])): NOT excused (clause whole_annotation_assignment_local)
+            self.o.label("annot:whole_assignment_on_view_sharing_container")
         length = mc.n + badlen
         if length < 0:
             length = mc.n + 1
